@@ -231,6 +231,8 @@ func tuples(cands []Term, n int, limit int) [][]Term {
 // returned (ret_f!2$rid) slices may hold a region allocated during the call.
 var entryRid = regexp.MustCompile(`^[A-Za-z_][A-Za-z0-9_.]*\$rid$`)
 
+func isEntryRid(s string) bool { return entryRid.MatchString(s) && !strings.HasPrefix(s, "ret_") }
+
 // memberGoal: cell (rid, addr) belongs to one of the families (witness form).
 func (fx *FuncCtx) memberGoal(st *State, fams []famInst, rid, addr Term, extra []Term) Term {
 	// a small goal first: witnesses from the access itself, the loop counters, the contract's
@@ -254,7 +256,7 @@ func (fx *FuncCtx) memberGoal(st *State, fams []famInst, rid, addr Term, extra [
 	// a region allocated during this call (negative id; a merged "nil ? fresh : given" slice is
 	// not syntactically an allocation) is not part of the caller-visible frame
 	fresh := tFalse
-	if !isAllocTerm(rid) && !entryRid.MatchString(rid.S) {
+	if !isAllocTerm(rid) && !isEntryRid(rid.S) {
 		fresh = Lt(rid, IntLit(0))
 	}
 	if fx.discard == 0 {
